@@ -439,8 +439,15 @@ def run_bias(case):
   tol = 0.51 + np.abs(exact) * 2e-6
   if np.any(unsat & (np.abs(got - exact) > tol)):
     raise Violation('bias_value', 'exact=%r got=%r' % (exact.tolist(), got.tolist()))
+  if want_bits == 32:
+    # values beyond the 32-bit range saturate at the nearest end (never wrap)
+    sat = np.abs(exact) > lim * 1.001
+    if np.any(sat & (got != np.sign(exact) * lim)):
+      i = int(np.argwhere(sat & (got != np.sign(exact) * lim))[0][0])
+      raise Violation('bias_saturation', 'bias/scale=%r stored as %r, want %r' % (exact[i], got[i], np.sign(exact[i]) * lim))
   return core.result(case['per_channel'] and n >= 2,
-                     ['in_bits=%d' % case['in_bits'], 'perchannel' if case['per_channel'] else 'pertensor'])
+                     ['in_bits=%d' % case['in_bits'], 'perchannel' if case['per_channel'] else 'pertensor'] +
+                     (['saturating'] if np.any(np.abs(exact) > lim) else []))
 
 
 def kf_asym_width_overflow(spec, violation):
